@@ -309,3 +309,56 @@ Definition order_allowed (l : list value) (r : res value) : bool :=
     | _ => false
     end
   else is_err r.
+
+(* ---------- side conditions of the theorems ---------- *)
+
+(* the keys of every map inside the value are pairwise different (a map value of the implementation
+   always is: C13) *)
+Fixpoint nodup_keys (m : list (str * value)) : bool :=
+  match m with
+  | [] => true
+  | (k, _) :: r => match assoc_v k r with Some _ => false | None => nodup_keys r end
+  end.
+
+Fixpoint wf_keys (v : value) : bool :=
+  match v with
+  | VList l => (fix go (l : list value) : bool := match l with [] => true | x :: r => wf_keys x && go r end) l
+  | VMap m => nodup_keys m &&
+              (fix go (m : list (str * value)) : bool :=
+                 match m with [] => true | (_, x) :: r => wf_keys x && go r end) m
+  | _ => true
+  end.
+
+(* no NaN, no closure, no caught error text anywhere inside *)
+Fixpoint clean_val (v : value) : bool :=
+  match v with
+  | VList l => (fix go (l : list value) : bool := match l with [] => true | x :: r => clean_val x && go r end) l
+  | VMap m => (fix go (m : list (str * value)) : bool :=
+                 match m with [] => true | (_, x) :: r => clean_val x && go r end) m
+  | VFloat FNaN => false
+  | VClo _ _ _ _ => false
+  | VErrText _ => false
+  | _ => true
+  end.
+
+(* every map inside has at most one entry (in particular: values without maps) *)
+Fixpoint narrow_maps (v : value) : bool :=
+  match v with
+  | VList l => (fix go (l : list value) : bool := match l with [] => true | x :: r => narrow_maps x && go r end) l
+  | VMap m => Nat.leb (length m) 1 &&
+              (fix go (m : list (str * value)) : bool :=
+                 match m with [] => true | (_, x) :: r => narrow_maps x && go r end) m
+  | _ => true
+  end.
+
+(* every int inside is exactly a float: |z| < 2^53, the property's bound *)
+Definition small_int (z : Z) : bool := (- 9007199254740992 <? z) && (z <? 9007199254740992).
+
+Fixpoint small_ints (v : value) : bool :=
+  match v with
+  | VInt z => small_int z
+  | VList l => (fix go (l : list value) : bool := match l with [] => true | x :: r => small_ints x && go r end) l
+  | VMap m => (fix go (m : list (str * value)) : bool :=
+                 match m with [] => true | (_, x) :: r => small_ints x && go r end) m
+  | _ => true
+  end.
